@@ -9,11 +9,12 @@ import pulsarbat as pb
 from harness.common import qlit, zlit, optlit, listlit
 from harness import exact as X
 
-VFILES = ['Lib/PySlice.v', 'Gen/GenConsts.v', 'Model/Band.v', 'Proofs/BandProofs.v', 'Gen/GenBand.v', 'Proofs/BandGen.v', 'Props/C02.v']
+VFILES = ['Lib/PySlice.v', 'Gen/GenConsts.v', 'Model/Band.v', 'Proofs/BandProofs.v', 'Gen/GenBand.v', 'Proofs/BandGen.v',
+          'Model/Ledger.v', 'Model/Getitem.v', 'Gen/GenGetitem.v', 'Proofs/GetitemProofs.v', 'Props/C02.v']
 ALIGN = {'bottom': 0, 'center': 1, 'top': 2}
 
 HEADER = '''From Coq Require Import ZArith QArith List. Import ListNotations. Open Scope Z_scope.
-From PB Require Import Lib.PySlice Model.Band.
+From PB Require Import Lib.PySlice Model.Band Model.Ledger Model.Getitem.
 Definition B (c b : Q) (n a : Z) (ls : list Q) (mn mx bwd : Q) : bobs :=
   {| bo_cf := c; bo_bw := b; bo_n := n; bo_align := a; bo_labels := ls; bo_min := mn; bo_max := mx; bo_bandwidth := bwd |}.
 (* construction: monitor (thousands) + model/impl diff *)
@@ -33,7 +34,33 @@ Definition chk_step (c b : Q) (n a : Z) (lo hi st : option Z) (raised : bool) : 
   | BOk _ _ => if raised then 128 else 0
   | BErr _ => if raised then 0 else 256
   end.
+(* index dispatch z[index]: outcome 0 returned / 1 IndexError / 2 another exception; observed length, first retained sample, stride
+   (from time-coded data), sample-rate divisor, band and first retained channel *)
+(* baseband classes: the constructor ties chan_bw to sample_rate (C16), so a time step > 1 narrows every channel by that step *)
+Definition rebw (bb : bool) (st : Z) (x : band) : band :=
+  if bb && (1 <? st) then {| cf := cf x; bw := (bw x / inject_Z st)%Q; nchan := nchan x; align := align x |} else x.
+Definition chk_getitem (radio bb : bool) (L : Z) (c b : Q) (n a : Z) (index : list item) (tol : Q)
+                       (outcome olen ooff ostride ostep : Z) (ob : option bobs) (olo : Z) : Z :=
+  let l := {| t0 := None; rate := 1; len := L |} in
+  match (if radio then radio_getitem l (mk_band c b n a) index else signal_getitem l index) with
+  | GOk l' off st bo =>
+      if negb (outcome =? 0) then 128 else
+      (if (len l' =? olen) && ((olen =? 0) || (off =? ooff)) && ((olen <=? 1) || (st =? ostride)) && ((if 1 <? st then st else 1) =? ostep) then 0 else 1)
+      + match bo, ob with
+        | Some (b', lo), Some o => bobs_diff tol (bobs_of_model (rebw bb st b')) o + (if (olen =? 0) || (lo =? olo) then 0 else 64)
+        | None, Some o => bobs_diff tol (bobs_of_model (rebw bb st (mk_band c b n a))) o + (if (olen =? 0) || (olo =? 0) then 0 else 64)
+        | _, None => 0
+        end
+  | GIndex => if outcome =? 1 then 0 else 256
+  | _ => if outcome =? 2 then 0 else 512
+  end.
 '''
+
+
+def item_lit(it):
+    if isinstance(it, slice):
+        return f'(ISlice {optlit(it.start, zlit)} {optlit(it.stop, zlit)} {optlit(it.step, zlit)})'
+    return 'IOther'
 
 
 def bobs(z):
@@ -277,6 +304,95 @@ def run(ctx):
         items.append(f'chk_step {qlit(X.hz(cf))} {qlit(X.hz(z.chan_bw))} {nchan} {ALIGN[al]} {optlit(a, zlit)} {optlit(b, zlit)} {optlit(st, zlit)} {"true" if raised else "false"}')
         meta.append(dict(inp=inp, impl='raised' if raised else 'returned'))
 
+
+    # ---- the index dispatch of __getitem__: any tuple of slices / integers / lists / Ellipsis / None, on every class
+    def rsl(n, steps):
+        return slice(rb(n), rb(n), rng.choice(steps))
+
+    def other():
+        return rng.choice([0, 1, -1, Ellipsis, None, [0], np.int64(0), np.array([0]), True, 1.0, (0,), 'x'])
+    for k in range(300 if ctx.tier == 'quick' else 4000):
+        cls = rng.choice(['Signal'] + list(X.RADIO))
+        radio = cls != 'Signal'
+        nchan, al, cf, bw = rand_band()
+        nchan = min(nchan, 9)
+        L = rng.choice([0, 1, 2, 5, 8, 12])
+        tail = {'FullStokesSignal': (4,), 'DualPolarizationSignal': (2,)}.get(cls, ())
+        shape = (L, nchan) + tail + (3,)
+        dt = np.complex128 if cls in ('BasebandSignal', 'DualPolarizationSignal') else np.float64
+        data = np.zeros(shape, dtype=dt)
+        data += (np.arange(L) * 100).reshape((L,) + (1,) * (len(shape) - 1))
+        data += np.arange(nchan).reshape((1, nchan) + (1,) * (len(shape) - 2))
+        start = Time('2021-03-04T05:06:07', precision=9) if rng.random() < 0.5 else None
+        kw = dict(sample_rate=bw if cls in ('BasebandSignal', 'DualPolarizationSignal') else rand_freq(rng, -3, 9), start_time=start)
+        if radio:
+            kw.update(center_freq=cf, freq_align=al)
+        if cls in ('RadioSignal', 'IntensitySignal', 'FullStokesSignal'):
+            kw['chan_bw'] = bw
+        if cls == 'DualPolarizationSignal':
+            kw['pol_type'] = 'linear'
+        z = getattr(pb, cls)(data, **kw)
+        index = []
+        r = rng.random()
+        if r < 0.03:
+            pass                                              # z[()]
+        else:
+            index.append(rsl(L, [None, None, None, 1, 2, 3, 0, -1]) if rng.random() < 0.85 else other())
+            if rng.random() < 0.75:
+                if radio:
+                    index.append(rsl(nchan, [None, None, None, 1, 1, 2, -1, 0]) if rng.random() < 0.8 else other())
+                else:
+                    index.append(rng.choice([slice(None), slice(0, 1), 0, nchan - 1, [0]]))
+                if rng.random() < 0.6:
+                    for _ in tail:
+                        index.append(slice(None))
+                    if rng.random() < 0.7:
+                        index.append(rng.choice([0, 2, -1, slice(0, 2), slice(None), slice(1, None), [0, 2]]))
+        if len(index) == 1 and rng.random() < 0.5 and not isinstance(index[0], tuple):
+            pyindex = index[0]                                # the non-tuple form z[x]
+        else:
+            pyindex = tuple(index)
+        inp = dict(op='getitem', cls=cls, L=L, nchan=nchan, align=al, cf=str(cf), bw=str(bw), index=repr(pyindex), started=start is not None)
+        ctx.seen(inp, nontrivial=len(index) >= 2)
+        ctx.count('getitem')
+        y, outcome, exc = None, 0, None
+        try:
+            y = z[pyindex]
+        except IndexError as e:
+            outcome, exc = 1, e
+        except Exception as e:
+            outcome, exc = 2, e
+        ctx.count(f'getitem_outcome_{outcome}')
+        olen = ooff = ostride = ostep = olo = 0
+        ob = 'None'
+        if outcome == 0:
+            olen = len(y)
+            first = np.asarray(y.data).real.reshape(olen, -1)[:, 0] if olen else np.zeros(0)
+            if olen:
+                v0 = int(round(float(first[0])))
+                ooff, olo = v0 // 100, v0 % 100
+                if olen > 1:
+                    ostride = (int(round(float(first[1]))) - v0) // 100
+                # the property itself: the first retained sample keeps its absolute time
+                if start is not None:
+                    want = X.hz(z.sample_rate)
+                    got = (y.start_time - z.start_time).to_value(u.s)
+                    if y.start_time is None or abs(Fraction(got) - Fraction(ooff) / want) > Fraction(1, 10 ** 9) + Fraction(ooff, 10 ** 14) / want:
+                        ctx.fail('getitem_start_time_not_of_first_retained_sample', inp, impl=float(got), model=float(Fraction(ooff) / want))
+            if start is None and y.start_time is not None:
+                ctx.fail('getitem_acquired_start_time', inp, impl=str(y.start_time))
+            if type(y) is not type(z):
+                ctx.fail('getitem_changed_type', inp, impl=type(y).__name__)
+            ostep = int(round(float((z.sample_rate / y.sample_rate).to_value(u.one))))
+            if abs(float((z.sample_rate / y.sample_rate).to_value(u.one)) - ostep) > 1e-9:
+                ctx.fail('getitem_sample_rate_not_divided_by_step', inp, impl=str(y.sample_rate))
+            if radio:
+                ob = f'(Some {bobs(y)})'
+        tol = tol_for(X.hz(cf), X.hz(bw), nchan)
+        items.append(f'chk_getitem {"true" if radio else "false"} {"true" if cls in ("BasebandSignal", "DualPolarizationSignal") else "false"} {L} {qlit(X.hz(cf))} {qlit(X.hz(bw))} {nchan} {ALIGN[al]} '
+                     f'{listlit([item_lit(i) for i in index])} {qlit(tol)} {outcome} {olen} {ooff} {ostride} {ostep} {ob} {olo}')
+        meta.append(dict(inp=inp, impl=f'raised {type(exc).__name__}: {exc}' if exc is not None else dict(len=olen, off=ooff, stride=ostride, lo=olo)))
+
     res = ctx.run_cases(HEADER, items, shard=max(60, len(items) // 32 + 1))
     if res is None:
         return
@@ -289,5 +405,8 @@ def run(ctx):
         if mon:
             ctx.fail(f'C02_ok/C02_slice_ok clauses {mon}', m['inp'], impl=m['impl'],
                      note='1 label count, 2 label formula, 4 alignment (odd->center), 8 band edges/width, 16 sliced labels = selected labels, 32 chan_bw kept')
-        if corr:
+        if corr and m['inp'].get('op') == 'getitem':
+            ctx.mismatch(f'index dispatch model vs implementation (code {corr}: 1 ledger, 2-32 band, 64 first channel, 128 model returns / code raised, '
+                         f'256 model IndexError, 512 model other error)', m['inp'], impl=m['impl'])
+        elif corr:
             ctx.mismatch(f'band model vs implementation (code {corr})', m['inp'], impl=m['impl'])
